@@ -126,6 +126,22 @@ static void run_script(int tid, const std::string& script, ThreadObs& o) {
       if (fn() != val) tfail(o, "function installed by JitRuntime::add returned the wrong value");
       sched_point();
       if (W.rt->release(fn) != Error::kOk) tfail(o, "JitRuntime::release failed");
+    } else if (c == 'V') {   // independent Compilers creating vector virtual registers of a different width per thread
+      CodeHolder code; code.init(Environment(Arch::kX64));
+      x86::Compiler cc(&code);
+      FuncNode* f = cc.add_func(FuncSignature::build<void, void*>());
+      x86::Gp p = cc.new_gp_ptr("p"); f->set_arg(0, p); sched_point();
+      int w = tid % 3;
+      x86::Vec v[4];
+      for (int j = 0; j < 4; j++) { v[j] = w == 0 ? cc.new_xmm("v%d", j) : w == 1 ? cc.new_ymm("v%d", j) : cc.new_zmm("v%d", j); sched_point(); }
+      for (int j = 0; j < 4; j++) { if (w == 0) cc.movups(v[j], x86::ptr(p, j * 64)); else cc.vmovups(v[j], x86::ptr(p, j * 64)); }
+      sched_point();
+      for (int j = 1; j < 4; j++) { if (w == 0) cc.paddd(v[0], v[j]); else cc.vpaddd(v[0], v[0], v[j]); }
+      if (w == 0) cc.movups(x86::ptr(p), v[0]); else cc.vmovups(x86::ptr(p), v[0]);
+      cc.ret(); cc.end_func(); sched_point();
+      if (cc.finalize() != Error::kOk) { tfail(o, "Compiler::finalize failed"); return; }
+      sched_point();
+      o.log += "V" + vh::hex(code.text_section()->data(), code.text_section()->buffer_size()) + ";";
     } else if (c == 'C' || c == 'A') {   // independent code generation, bytes compared with the solo run
       CodeHolder code; code.init(Environment(Arch::kX64));
       std::string bytes;
@@ -170,6 +186,7 @@ static std::vector<Scenario> scenarios() {
     {"alloc-4t", {"a0r", "a1r", "a4q", "s"}, 0, 0, -1},   // four threads: one preemption less than the tier's bound
     {"codegen-2t", {"A", "C"}, 0, 0},
     {"codegen-3t", {"C", "C", "A"}, 0, 0},
+    {"codegen-vec-3t", {"V", "V", "V"}, 0, 0},
   };
 }
 
